@@ -410,3 +410,25 @@ PROPS["C18"] = {
                     "stop() is called between connections; 'connect refused after stop()' relies on acceptor::close() really closing (repo commit bb2d71b)"],
     "timeout": {"quick": 900, "thorough": 7200},
 }
+
+
+# ---- cross-engine monitors: the same always-on monitors run over the other engines' workloads
+# (the engine is started with the workload of another property; the driver keeps the violations of the property being checked)
+PROPS["C02"]["jobs"] += [
+    {"name": "clock-monitor-over-tcp", "engine": "tcp", "prop": "C06", "args": {"n": T(150, 6000)}},
+    {"name": "clock-monitor-over-udp", "engine": "udp", "prop": "C08", "args": {"n": T(300, 10000)}},
+    {"name": "clock-monitor-over-queue", "engine": "queue", "prop": "C09", "args": {"n": T(500, 20000)}},
+]
+PROPS["C04"]["jobs"] += [
+    {"name": "handler-monitors-over-tcp", "engine": "tcp", "prop": "C05", "mode": "random", "args": {"n": T(150, 6000)}},
+    {"name": "handler-monitors-over-conn", "engine": "conn", "prop": "C07", "args": {"n": T(500, 20000)}},
+    {"name": "handler-monitors-over-udp", "engine": "udp", "prop": "C08", "args": {"n": T(300, 10000)}},
+]
+PROPS["C09"]["jobs"] += [
+    {"name": "queue-checker-over-tcp", "engine": "tcp", "prop": "C06", "args": {"n": T(150, 6000)}},
+    {"name": "queue-checker-over-udp", "engine": "udp", "prop": "C08", "args": {"n": T(300, 10000)}},
+]
+PROPS["C10"]["jobs"] += [
+    {"name": "queue-checker-over-tcp", "engine": "tcp", "prop": "C06", "args": {"n": T(150, 6000)}},
+    {"name": "queue-checker-over-udp", "engine": "udp", "prop": "C08", "args": {"n": T(300, 10000)}},
+]
